@@ -42,6 +42,8 @@ type Solver struct {
 	errSeen                string
 	depth                  int
 	ufDeclared             map[string]bool
+	epoch                  int // incremented whenever the process is restarted (all state lost)
+	Restarts               int
 }
 
 var solverGen int
@@ -66,7 +68,7 @@ func NewSolver(tt *TermTable, timeoutMs int, logPath string) *Solver {
 }
 
 func (s *Solver) start() {
-	argv := solverArgv("z3")
+	argv := append(solverArgv("z3"), "-memory:6000")
 	s.cmd = exec.Command(argv[0], argv[1:]...)
 	inp, _ := s.cmd.StdinPipe()
 	outp, _ := s.cmd.StdoutPipe()
@@ -104,6 +106,8 @@ func (s *Solver) Restart() {
 	s.inRaw.Close()
 	s.cmd.Process.Kill()
 	s.cmd.Wait()
+	s.epoch++
+	s.Restarts++
 	s.start()
 }
 
@@ -116,7 +120,12 @@ func (s *Solver) send(x string) {
 }
 
 func (s *Solver) Push() { s.send("(push 1)"); s.depth++ }
-func (s *Solver) Pop()  { s.send("(pop 1)"); s.depth-- }
+func (s *Solver) Pop() {
+	if s.depth > 0 {
+		s.send("(pop 1)")
+		s.depth--
+	}
+}
 
 // define makes sure every node of t's DAG is known to the solver.
 func (s *Solver) define(t *Term) {
@@ -176,8 +185,28 @@ func (s *Solver) Check() Res {
 	t0 := time.Now()
 	s.send("(check-sat)")
 	s.in.Flush()
-	l := s.readLine()
+	// watchdog: z3's own :timeout is not always honoured (preprocessing, memory growth)
+	done := make(chan string, 1)
+	go func() { done <- s.readLine() }()
+	var l string
+	select {
+	case l = <-done:
+	case <-time.After(time.Duration(s.timeoutMs)*time.Millisecond + 10*time.Second):
+		s.cmd.Process.Kill()
+		<-done
+		s.errSeen = ""
+		s.Time += time.Since(t0)
+		s.Restart()
+		s.NUnknown++
+		return Unknown
+	}
 	s.Time += time.Since(t0)
+	if strings.HasPrefix(s.errSeen, "solver pipe closed") {
+		s.errSeen = ""
+		s.Restart()
+		s.NUnknown++
+		return Unknown
+	}
 	if s.errSeen != "" {
 		// any (error line makes the query inconclusive
 		s.NUnknown++
